@@ -172,7 +172,7 @@ static Body gen_body() {
 static bool has_lookalike(const Body &b) { for (auto &p : b.parts) if (p.content.find("\n--") != std::string::npos || p.content.find("\r\r") != std::string::npos || (!p.content.empty() && (p.content.back() == '\r' || p.content.back() == '\n'))) return true; return false; }
 
 static void direct_campaign() {
-    int cases = A.thorough() ? 8000 : 900;
+    int cases = A.thorough() ? 12000 : 3000;
     rcx::run("multipart_direct", vc::mix(A.seed * 163 + A.shard), cases, 60, [&]() -> std::optional<rcx::Fail> {
         Body b = gen_body();
         std::string wire = serialize(b);
@@ -223,7 +223,7 @@ static std::pair<std::string, std::string> check_e2e(const Body &b, const std::v
 }
 
 static void e2e_campaign() {
-    int cases = A.thorough() ? 40000 : 4000;
+    int cases = A.thorough() ? 60000 : 12000;
     rcx::run("multipart_end_to_end", vc::mix(A.seed * 167 + A.shard), cases, 60, [&]() -> std::optional<rcx::Fail> {
         Body b = gen_body();
         size_t total = serialize(b).size() + 120 + b.boundary.size();
